@@ -25,6 +25,12 @@ def main():
             continue
         src = open(p).read()
         new, k = re.subn(r"\bos\.(%s)\(" % FUNCS, r"simfs.\1(", src)
+        if p.endswith("pkg/registry/lock.go"):
+            # the wait for a contended install lock goes behind the simulator's seam
+            new, kl = re.subn(r"fl\.TryLockContext\(ctx, lockPollInterval\)", "simfs.TryLockContext(ctx, fl.TryLock, path, lockPollInterval)", new)
+            if kl != 1:
+                print("overlay19: pkg/registry/lock.go no longer has the expected TryLockContext call", file=sys.stderr)
+                sys.exit(2)
         if k == 0:
             continue
         m = re.search(r'^import \(\n', new, re.M)
